@@ -13,6 +13,18 @@ pub type T = ${T};
 pub type TI = ${TI};
 pub type T2 = Option<i64>;       // label type (A-MONO): any IsNone + Clone type; `label.clone()` of a Copy value is the value (R12)
 
+// itertools::Itertools::dedup (A-ITER): consecutive equal elements collapse; all the model promises is that a sequence without
+// equal neighbours comes back unchanged and that nothing is added
+pub open spec fn same_value(a: TI, b: TI) -> bool { !a.is_nanv() && !b.is_nanv() && a.rval() == b.rval() }
+impl It<TI> {
+    #[verifier::external_body]
+    pub fn dedup(self) -> (r: It<TI>)
+        requires self.forever().is_none(),
+        ensures
+            r.forever().is_none(), r.seq().len() <= self.seq().len(),
+            (forall|i: int| 0 < i < self.seq().len() ==> !same_value(#[trigger] self.seq()[i - 1], self.seq()[i])) ==> r.seq() == self.seq(),
+    { unimplemented!() }
+}
 pub open spec fn lt(a: TI, b: TI) -> bool { !a.is_nanv() && !b.is_nanv() && a.rval() < b.rval() }
 pub open spec fn le(a: TI, b: TI) -> bool { !a.is_nanv() && !b.is_nanv() && a.rval() <= b.rval() }
 
